@@ -26,6 +26,10 @@ type ExploreOpts struct {
 	Deadline   time.Time // zero: none
 	Roots      [][]int   // subtree roots (nil: the whole tree)
 	KeepViol   int       // keep at most this many violations (default 20)
+	// SplitAt > 0: explore breadth-first (largest subtrees first) and stop as soon as
+	// at least SplitAt unexplored subtree roots are pending; they are returned in
+	// ExploreStats.Frontier for distribution over workers.
+	SplitAt int
 }
 
 type Violation struct {
@@ -51,6 +55,7 @@ type ExploreStats struct {
 	Diverged     []string
 	PerThreadMax map[string]int
 	Sample       []string
+	Frontier     [][]int `json:",omitempty"`
 }
 
 type cacheKey struct {
@@ -73,12 +78,22 @@ func ExploreDFS(run RunFunc, o ExploreOpts) *ExploreStats {
 	}
 	stack = append([][]int(nil), stack...)
 	for len(stack) > 0 {
+		if o.SplitAt > 0 && len(stack) >= o.SplitAt {
+			st.Frontier = stack
+			break
+		}
 		if (o.MaxExec > 0 && st.Executions >= o.MaxExec) || (!o.Deadline.IsZero() && st.Executions%64 == 0 && time.Now().After(o.Deadline)) {
 			st.Complete = false
 			break
 		}
-		prefix := stack[len(stack)-1]
-		stack = stack[:len(stack)-1]
+		var prefix []int
+		if o.SplitAt > 0 {
+			prefix = stack[0]
+			stack = stack[1:]
+		} else {
+			prefix = stack[len(stack)-1]
+			stack = stack[:len(stack)-1]
+		}
 		out := run(Config{Replay: prefix, TimersFree: o.TimersFree, MaxTicks: o.MaxTicks, Horizon: o.Horizon})
 		res := out.Res
 		st.Executions++
@@ -152,59 +167,16 @@ func ExploreDFS(run RunFunc, o ExploreOpts) *ExploreStats {
 	return st
 }
 
-// Split expands the choice tree breadth-first from the root until at least n
-// unexplored subtree roots exist (or the tree is exhausted) and returns them;
-// the executions performed on the way are accounted in the returned stats.
+// Split explores breadth-first from the root until at least n subtree roots are
+// pending (or the tree is exhausted) and returns them with the statistics of the
+// executions performed on the way.
 func Split(run RunFunc, o ExploreOpts, n int) ([][]int, *ExploreStats) {
-	st := &ExploreStats{Outcomes: map[string]int{}, Complete: true, PerThreadMax: map[string]int{}}
-	type node struct {
-		prefix []int
-	}
-	queue := [][]int{{}}
-	var leaves [][]int
-	for len(queue) > 0 && len(queue)+len(leaves) < n {
-		prefix := queue[0]
-		queue = queue[1:]
-		out := run(Config{Replay: prefix, TimersFree: o.TimersFree, MaxTicks: o.MaxTicks, Horizon: o.Horizon})
-		res := out.Res
-		st.Executions++
-		st.Transitions += res.Points
-		st.Outcomes[out.Digest]++
-		if res.Diverged != "" || len(res.Choices) < len(prefix) {
-			st.Diverged = append(st.Diverged, fmt.Sprintf("prefix %v: %s", prefix, res.Diverged))
-			continue
-		}
-		cost := 0
-		for i, cp := range res.Choices {
-			if i == len(prefix) {
-				// children of this node: every alternative at point i, including the default one
-				for alt := 0; alt < cp.N; alt++ {
-					if o.Bound >= 0 && cost+int(cp.Costs[alt]) > o.Bound {
-						continue
-					}
-					np := make([]int, i+1)
-					for j := 0; j < i; j++ {
-						np[j] = res.Choices[j].Chosen
-					}
-					np[i] = alt
-					queue = append(queue, np)
-				}
-				break
-			}
-			cost += int(cp.Costs[cp.Chosen])
-		}
-		if len(res.Choices) == len(prefix) {
-			// a complete execution: its oracle verdict belongs to this node
-			if len(out.Violations) > 0 {
-				st.NViolations += len(out.Violations)
-				for _, m := range out.Violations {
-					st.Violations = append(st.Violations, Violation{Msg: m, Choices: prefix, Deviations: cost})
-				}
-			}
-			leaves = append(leaves, prefix)
-		}
-	}
-	return append(leaves, queue...), st
+	o.SplitAt = n
+	o.Roots = nil
+	st := ExploreDFS(run, o)
+	f := st.Frontier
+	st.Frontier = nil
+	return f, st
 }
 
 // Merge adds b into a.
